@@ -9,9 +9,11 @@
    NpidMode tells how a warm start restores the identifier counter: "count" (number released so far, written with the
    particle variables) or "maxpid" (highest identifier present in the restart file; refuted by TLC: C08).
    Layout "sparse" compactifies at output and writes the living particles one after the other; "dense" never compactifies and
-   writes the value of the particle at list position i into column i (the implementation's `has_value` mask): the column is
-   the particle's identifier only because the list is never compacted - CompactMode "everystep" (a tidy-up that looks
-   harmless, removing the dead after every step) is refuted for the dense layout by TLC (C06).                    *)
+   writes the value of a living particle into the column of its identifier (the repaired implementation, D32);
+   "dense_bypos" is the pinned implementation, which wrote the particle at list position i into column i (a `has_value`
+   mask over the list): the column is the identifier only as long as the list holds every particle ever released - TLC
+   refutes it after a warm start (the restored list holds the living particles only; C06 / C08) and with CompactMode
+   "everystep" (a tidy-up that looks harmless, removing the dead after every step).                               *)
 EXTENDS Integers, Sequences, FiniteSets
 CONSTANTS W, NSTEPS, CacheMode, NpidMode, Layout, CompactMode
 
@@ -36,9 +38,11 @@ Due(m, sc, warm) == m.step >= (IF warm THEN 1 ELSE 0) /\ m.step % sc.ops = 0
 \* output: compactify (sparse layout), then append the record; the cache follows the particles only in "state" mode
 Output(m, sc, warm) ==
    IF ~Due(m, sc, warm) THEN [m EXCEPT !.pc = "move"]
-   ELSE IF Layout = "dense"
-   THEN LET cols == SelectSeq([i \in 1..Len(m.parts) |-> i], LAMBDA i : m.parts[i].alive)          \* columns written = list positions of the living
-        IN [m EXCEPT !.pc = "move", !.hist = Append(@, [step |-> m.step, parts |-> Alive(m.parts), npid |-> m.npid, cols |-> cols])]
+   ELSE IF Layout \in {"dense", "dense_bypos"}
+   THEN LET living == Alive(m.parts)
+            cols == IF Layout = "dense" THEN [j \in 1..Len(living) |-> living[j].pid + 1]                      \* columns written = identifiers of the living
+                    ELSE SelectSeq([i \in 1..Len(m.parts) |-> i], LAMBDA i : m.parts[i].alive)               \* pinned: list positions of the living
+        IN [m EXCEPT !.pc = "move", !.hist = Append(@, [step |-> m.step, parts |-> living, npid |-> m.npid, cols |-> cols])]
    ELSE LET keep == { i \in 1..Len(m.parts) : m.parts[i].alive }
             P2 == Alive(m.parts)
             C2 == IF CacheMode = "state" THEN SelectSeq(m.cache, LAMBDA c : \E i \in keep : m.parts[i].pid = c.pid) ELSE m.cache
